@@ -16,6 +16,7 @@ import (
 	"log/slog"
 	"math/big"
 	"math/rand"
+	"os"
 	"strings"
 	"sync"
 	"testing"
@@ -62,7 +63,8 @@ type c01Handler struct {
 
 // Engine: accept | reject | status0 | status3 | silent | no-take | accept-late | accept-twice |
 //
-//	accept-other | reject-then-accept | unknown-then-accept | equal-digests (two handlers, same bid)
+//	accept-other | reject-then-accept | unknown-then-accept | equal-digests (two handlers, same bid) |
+//	true-late | true-silent | true-early (outer context WITHOUT deadline: only the handler's own 5 s applies)
 type c01In struct {
 	H        c01Handler
 	Engine   string
@@ -88,6 +90,10 @@ type c01Obs struct {
 	Writes  []c01Write
 	Pending int
 	Events  []string // Coq terms of the model events of this run
+	// timed cases (outer context without deadline): the decision events EventsAfter were issued TimedAt ms
+	// after the handler started; the checker orders them against the 5 s literal of Generated.v
+	TimedAt     int // -1: not a timed case
+	EventsAfter []string
 }
 
 // ---- fakes ------------------------------------------------------------------------------------------
@@ -363,9 +369,11 @@ func c01Run(t testing.TB, in c01In, slow int) c01Obs {
 
 	bid := c01MakeBid(in.H)
 	digest := append([]byte{}, bid.Digest...)
-	obs := c01Obs{Rets: [][2]int{}, Signed: [][]byte{}, Sends: []c01Send{}, Writes: []c01Write{}, Events: []string{}}
+	obs := c01Obs{Rets: [][2]int{}, Signed: [][]byte{}, Sends: []c01Send{}, Writes: []c01Write{}, Events: []string{},
+		TimedAt: -1, EventsAfter: []string{}}
 	var wmu sync.Mutex
-	ev := func(s string) { obs.Events = append(obs.Events, s) }
+	evSink := &obs.Events
+	ev := func(s string) { *evSink = append(*evSink, s) }
 
 	// oracle answers, from the real signer on the very message
 	plain := preconfsigner.NewSigner(&c01Key{key: c01NodeKey})
@@ -395,8 +403,16 @@ func c01Run(t testing.TB, in c01In, slow int) c01Obs {
 		code int
 	}
 	done := make(chan hres, 4)
+	var outerCancel context.CancelFunc
 	startHandler := func(h int, deadline time.Duration) {
-		ctx, cancel := context.WithTimeout(context.Background(), deadline)
+		var ctx context.Context
+		var cancel context.CancelFunc
+		if deadline > 0 {
+			ctx, cancel = context.WithTimeout(context.Background(), deadline)
+		} else { // as in production: the stream wrapper's context has no deadline
+			ctx, cancel = context.WithCancel(context.Background())
+			outerCancel = cancel
+		}
 		st := &c01Stream{h: h, bid: bid, readErr: in.H.ReadErr, writeOK: in.H.WriteOK, evm: evm, mu: &wmu, writes: &obs.Writes}
 		go func() {
 			defer cancel()
@@ -482,6 +498,46 @@ func c01Run(t testing.TB, in c01In, slow int) c01Obs {
 	}
 
 	switch in.Engine {
+	case "true-late", "true-silent", "true-early":
+		ev(arrive(1))
+		t0 := time.Now()
+		startHandler(1, 0)
+		if takeOne() {
+			ev(coqApp("EngineTake", "1%N"))
+		}
+		at := map[string]int{"true-late": 5500, "true-early": 2000, "true-silent": 1000000000}[in.Engine]
+		obs.TimedAt = at
+		evSink = &obs.EventsAfter
+		if in.Engine != "true-silent" {
+			if _, finished := rets[1]; !finished {
+				// keep collecting the handler's return while sleeping
+				select {
+				case r := <-done:
+					rets[r.h] = r.code
+					time.Sleep(time.Until(t0.Add(time.Duration(at) * time.Millisecond)))
+				case <-time.After(time.Until(t0.Add(time.Duration(at) * time.Millisecond))):
+				}
+			}
+			feed(digest, 1)
+			progress(1)
+		}
+		// the handler must have returned by its own deadline (5 s) plus a margin
+		if _, finished := rets[1]; !finished {
+			select {
+			case r := <-done:
+				rets[r.h] = r.code
+			case <-time.After(time.Until(t0.Add(7500 * time.Millisecond))):
+				rets[1] = 97 // still running 2.5 s after the deadline
+				outerCancel()
+				select {
+				case <-done:
+				case <-time.After(wait):
+				}
+			}
+		}
+		if outerCancel != nil {
+			outerCancel()
+		}
 	case "no-take":
 		ev(arrive(1))
 		startHandler(1, short)
@@ -626,7 +682,12 @@ func c01Coq(id int, in c01In, obs c01Obs) string {
 		writes = append(writes, coqRecord("wo_h", coqN(uint64(w.H)), "wo_c", c01CoqPreconf(w.C),
 			"wo_sends_ok_before", coqN(uint64(w.SendsOKPrev))))
 	}
+	timed := "None"
+	if obs.TimedAt >= 0 {
+		timed = "(Some " + coqN(uint64(obs.TimedAt)) + ")"
+	}
 	return coqRecord("id", coqN(uint64(id)), "contract", coqBytes(in.Contract), "evs", coqList(obs.Events),
+		"timed_at", timed, "evs_after", coqList(obs.EventsAfter),
 		"ob", coqRecord("o_rets", coqList(rets), "o_signed", coqList(signed), "o_sends", coqList(sends),
 			"o_writes", coqList(writes), "o_pending", "0%N"))
 }
@@ -724,6 +785,8 @@ func c01Generate(r *rand.Rand, class string) c01In {
 		in.H.WriteOK = false
 	case "signer":
 		in.H.SignErr = true
+	case "true-late", "true-silent", "true-early":
+		in.Engine = class
 	default: // matrix: independent draws of every dimension
 		if r.Intn(4) == 0 {
 			in.H.Role = []int{0, 1, 2, -1}[r.Intn(4)]
@@ -744,7 +807,7 @@ func c01Generate(r *rand.Rand, class string) c01In {
 	return in
 }
 
-func c01Main(t *testing.T, classes []string, reps int) {
+func c01Main(t *testing.T, classes []string, reps int, timed int) {
 	e := vfOpen(t, 20)
 	defer e.Close()
 	var emu sync.Mutex
@@ -761,6 +824,12 @@ func c01Main(t *testing.T, classes []string, reps int) {
 		jobs = append(jobs, job{"replay", in})
 	}
 	if !e.OnlyReplay() {
+		// the true-deadline cases take 6-8 s each: start them first, they overlap with all the others
+		for i := 0; i < timed; i++ {
+			for _, c := range []string{"true-late", "true-silent", "true-early"} {
+				jobs = append(jobs, job{c, c01Generate(e.rng, c)})
+			}
+		}
 		for i := 0; i < e.N*reps; i++ {
 			for _, c := range classes {
 				jobs = append(jobs, job{c, c01Generate(e.rng, c)})
@@ -769,7 +838,7 @@ func c01Main(t *testing.T, classes []string, reps int) {
 	}
 	// handlers of different cases are independent: run them in parallel, emit in input order
 	results := make([]c01Obs, len(jobs))
-	sem := make(chan struct{}, 8)
+	sem := make(chan struct{}, 12)
 	var wg sync.WaitGroup
 	for i := range jobs {
 		wg.Add(1)
@@ -792,9 +861,9 @@ func c01Main(t *testing.T, classes []string, reps int) {
 
 func TestVerifC01(t *testing.T) {
 	c01Main(t, []string{"accepted", "role", "tamper", "tamper", "allowance", "format", "format", "read", "engine", "engine",
-		"engine", "store", "write", "signer", "matrix", "matrix", "matrix"}, 1)
+		"engine", "store", "write", "signer", "matrix", "matrix", "matrix"}, 1, map[bool]int{true: 4, false: 1}[os.Getenv("VERIF_TIER") == "thorough"])
 }
 
 func TestVerifC07(t *testing.T) {
-	c01Main(t, []string{"accepted", "accepted", "accepted", "store", "write", "engine", "matrix"}, 2)
+	c01Main(t, []string{"accepted", "accepted", "accepted", "store", "write", "engine", "matrix"}, 2, 0)
 }
